@@ -326,6 +326,9 @@ ASSUMPTIONS = {}
 def shrink(engine, scratch, ops, still_fails, max_rounds=40):
     """Batch delta debugging on the operation list (the H line is kept)."""
     cur = list(ops)
+    if len(cur) > 160:
+        # very long histories (large-pool scenarios): truncation to the failing event is all the shrinking we do
+        return cur
     rounds = 0
     chunk = max(1, (len(cur) - 1) // 2)
     while rounds < max_rounds and len(cur) > 2:
